@@ -660,7 +660,7 @@ func envelopeState(w *World, p Path, recv string) (state, msg string, claimsStor
 
 func checkC19(w *World, r *Recorder) propInfo {
 	info := propInfo{
-		Explanation: "Typestate of Evidence.message decided per path of Sign, ValidateAndSign and UnmarshalCOSE (private helpers inlined): states {stale (value on entry), fresh-unsigned (store of cose.NewSign1Message()), nil, signed-here (nil result of Sign on the fresh message), decoded-here (nil result of the tagged UnmarshalCBOR on it), modified-after-*}. Y1: every return with a non-nil error leaves the envelope fresh-unsigned or nil — for UnmarshalCOSE also decoded-here provided the claims are nil there; Y2: every return with a nil error leaves it signed-here resp. decoded-here, never stale; Y3: failing sign operations return a nil token; Y4: in UnmarshalCOSE the claims field is overwritten with result 0 of the claims decoder (nil on its error paths, shown on the decoder's own summary); Y5: nothing else writes the message. With the model 'Verify fails on a fresh-unsigned or nil envelope' (go-cose: empty signature ⇒ error) this yields: failed attempt ⇒ no token and verification fails until the next success; each attempt starts from a fresh envelope, so a failed attempt cannot poison a later one and two signings are independent. Not decided: histories in which the caller mutates the exported Claims field or the claims object between operations (excluded by the statement), the behaviour of signer implementations.",
+		Explanation: "Typestate of Evidence.message decided per path of Sign, ValidateAndSign and UnmarshalCOSE (private helpers inlined): states {stale (value on entry), fresh-unsigned (store of cose.NewSign1Message()), nil, signed-here (nil result of Sign on the fresh message), decoded-here (nil result of the tagged UnmarshalCBOR on it), modified-after-*}. Y1: every return with a non-nil error leaves the envelope fresh-unsigned or nil — for UnmarshalCOSE also decoded-here provided the claims are nil there; Y2: every return with a nil error leaves it signed-here resp. decoded-here, never stale; Y3: failing sign operations return a nil token; Y4: in UnmarshalCOSE the claims field is overwritten with result 0 of the claims decoder (nil on its error paths, shown on the decoder's own summary); Y5: nothing else writes the message. With the model 'Verify fails on a fresh-unsigned or nil envelope' (go-cose: empty signature ⇒ error) this yields: failed attempt ⇒ no token and verification fails until the next success; each attempt starts from a fresh envelope, so a failed attempt cannot poison a later one and two signings are independent. Not decided: histories in which the caller mutates the exported Claims field or the claims object between operations (excluded by the statement), the behaviour of signer implementations. Y13: Verify returns nil only where the one Sign1Message.Verify call on the Evidence's envelope returned nil (C02-V3 under this property).",
 		Rule:        "one obligation per (method, path); decided by replaying the path's store/call events",
 		Trusted:     []string{"go/types+go/ssa", "path engine", "model: NewSign1Message has an empty signature; Sign sets it only on success; UnmarshalCBOR replaces *m only on success; Verify fails on an empty signature"},
 	}
